@@ -29,6 +29,8 @@ def run(diff: Path):
         new = sorted({f"{f.rule} @ {f.func}" for f in rep.findings if f.key not in known})
         if new:
             out[pid] = new
+        elif rep.analysis_errors:
+            out[pid] = ["EXIT2: " + "; ".join(rep.analysis_errors)[:200]]
     return out
 
 if __name__ == "__main__":
